@@ -196,7 +196,19 @@ Definition c13_check (c : ecase) : option string :=
   match extra c "noboost_big", extra c "boost_big" with
   | Some nb, Some b =>
       if negb (subset_ids (ids nb) (ids b) && subset_ids (ids b) (ids nb)) then Some "same_candidates"
-      else None
+      else
+        (* at a limit that cuts nothing: a command that contains a boosted word never scores lower with the boosts,
+           a command that contains none of them scores exactly the same *)
+        let E := env_of c in
+        let words := map fst (o_boosts (k_opts c)) in
+        let contains := fun i : Z => match nth_error (k_cmds c) (Z.to_nat i) with
+                                     | Some d => existsb (fun w => tf_any (doc_tf E d w)) words | None => false end in
+        let pair := fun x : eres => find (fun y : eres => Z.eqb (fst y) (fst x)) nb in
+        if existsb (fun x => match pair x with Some y => contains (fst x) && PrimFloat.ltb (snd x) (snd y) | None => false end) b
+        then Some "boost_never_lowers"
+        else if existsb (fun x => match pair x with Some y => negb (contains (fst x)) && negb (score_eqb (snd x) (snd y)) | None => false end) b
+        then Some "boost_local"
+        else None
   | _, _ => None
   end.
 
